@@ -12,7 +12,7 @@ A run is ONE line: the mailbox names, then one word per step in the order the ha
   step       A:<mb>:<flags>:<hex literal>:<ans>          APPEND
              B:<mb>:<flags>:<digest,…>:<ans>             messages created through the connector (population)
              S:<mb>:<add|rem|set>:<flags>:<uids>:<ans>   STORE / UID STORE (.SILENT or not)
-             X:<mb>:<uids>:<ans>                         EXPUNGE / UID EXPUNGE / CLOSE
+             X:<mb>:<sync|stale>:<all|set>:<named>:<uids>:<ans>   EXPUNGE / CLOSE (`all`) / UID EXPUNGE (`set`)
              C:<src>:<dst>:<uids>:<ans>                  COPY / UID COPY
              M:<src>:<dst>:<uids>:<ans>                  MOVE / UID MOVE
              K:<dump>                                    checkpoint: what a FRESH session saw
@@ -20,6 +20,14 @@ A run is ONE line: the mailbox names, then one word per step in the order the ha
   uids       the UIDs (in the issuing session's view, view order) of the messages the command's set selects; for
              X the selected messages the view shows as \Deleted; `-` = none.  A UID the mailbox no longer has (the
              view was stale) is resolved through the log of every (mailbox, UID) that ever existed.
+  named      (X) the UIDs of the session's view the command speaks about: all of them (`all`: EXPUNGE, CLOSE) or
+             those the UID set names (`set`: UID EXPUNGE).  The REFERENCE removes the messages that are `\Deleted`
+             IN THE AUTHORITATIVE MAILBOX: all of them for `sync all` (`refExpunge`: the session had applied and
+             flushed everything, Theorems/SysC03.lean), otherwise those among `named` (`refUidExpunge`: a stale view
+             limits which messages a session can name, it never decides what is `\Deleted`).  `uids` — what the
+             session's view shows as `\Deleted` — is what the MODEL of the code runs on (`Mailbox.Expunge` takes the
+             snapshot's marks); the judge reports the first X step at which `uids` differs from the authoritative
+             `\Deleted` entries among `named` as `expunge-view=…` next to the verdict.
   ans        ok | no | bad (what the server answered; ignored by c03-model) | nofault (answered NO because the harness
              made the transaction that queues the state updates fail: a legitimate NO; c03-model runs the step with
              `Second.fails`)
@@ -60,7 +68,7 @@ inductive Step where
   | append (mb : String) (flags : List String) (digest : String) (ans : String)
   | bulk (mb : String) (flags : List String) (digests : List String) (ans : String)
   | store (mb : String) (op : String) (flags : List String) (uids : List Nat) (ans : String)
-  | expunge (mb : String) (uids : List Nat) (ans : String)
+  | expunge (mb : String) (sync all : Bool) (named uids : List Nat) (ans : String)
   | copy (src dst : String) (uids : List Nat) (ans : String)
   | move (src dst : String) (uids : List Nat) (ans : String)
   | check (dump : String)
@@ -73,7 +81,7 @@ def parseStep (w : String) : Step :=
   | ["A", mb, fl, hex, ans] => .append mb (splitList fl) (digestOfHex hex) ans
   | ["B", mb, fl, ds, ans] => .bulk mb (splitList fl) (splitList ds) ans
   | ["S", mb, op, fl, us, ans] => .store mb op (splitList fl) (nats us) ans
-  | ["X", mb, us, ans] => .expunge mb (nats us) ans
+  | ["X", mb, mode, what, named, us, ans] => .expunge mb (mode == "sync") (what == "all") (nats named) (nats us) ans
   | ["C", src, dst, us, ans] => .copy src dst (nats us) ans
   | ["M", src, dst, us, ans] => .move src dst (nats us) ans
   | "K" :: rest => .check (":".intercalate rest)
@@ -123,12 +131,26 @@ def expectAns (st : MailboxRef.State) : Step → String
 
 def opOf (s : String) : MailboxRef.StoreOp := if s == "add" then .add else if s == "rem" then .remove else .set
 
+/-- the UIDs of the authoritative `\Deleted` entries of `mb` among `named` -/
+def authDeleted (st : MailboxRef.State) (mb : String) (named : List Nat) : List Nat :=
+  match st.mailbox? mb with
+  | some b => (b.entries.filter fun e => e.deleted && named.contains e.uid).map (·.uid)
+  | none => []
+
+/-- what EXPUNGE / CLOSE / UID EXPUNGE remove according to the reference: `refExpunge` for a session in sync that
+    names the whole mailbox, else `refUidExpunge` on the UIDs of the view the command names -/
+def expungeTarget (st : MailboxRef.State) (mb : String) (sync all : Bool) (named : List Nat) : List MailboxRef.MsgRef :=
+  if sync && all then MailboxRef.deletedOf st mb
+  else match st.mailbox? mb with
+    | some b => (b.entries.filter fun e => e.deleted && named.contains e.uid).map (·.msg)
+    | none => []
+
 /-- the reference command of a step (message sets resolved), `none` for checkpoints -/
 def refCmds (r : RefRun) : Step → List MailboxRef.Cmd
   | .append mb fl d _ => [.append mb fl d]
   | .bulk mb fl ds _ => ds.map fun d => .append mb fl d
   | .store mb op fl us _ => [.store mb (resolveRef r mb us) (opOf op) fl]
-  | .expunge mb us _ => [.expunge mb (resolveRef r mb us)]
+  | .expunge mb sync all named _ _ => [.expunge mb (expungeTarget r.st mb sync all named)]
   | .copy src dst us _ => [.copy src dst (resolveRef r src us)]
   | .move src dst us _ => [.move src dst (resolveRef r src us)]
   | _ => []
@@ -137,7 +159,7 @@ def stepAns : Step → String
   | .append _ _ _ a => a
   | .bulk _ _ _ a => a
   | .store _ _ _ _ a => a
-  | .expunge _ _ a => a
+  | .expunge _ _ _ _ _ a => a
   | .copy _ _ _ a => a
   | .move _ _ _ a => a
   | _ => "ok"
@@ -175,10 +197,26 @@ def firstDiff (want got : String) : String :=
 
 structure Verdict where
   bad : Option String := none
+  /-- the first EXPUNGE-class step at which the issuing session's view of `\Deleted` differs from the mailbox -/
+  note : Option String := none
   steps : Nat := 0
   checks : Nat := 0
   msgs : Nat := 0
   refused : Nat := 0
+
+def showNats (l : List Nat) : String := if l.isEmpty then "-" else ",".intercalate (l.map toString)
+
+/-- diagnosis only (the verdict is the content at the next checkpoint): does the view of the session that issues an
+    EXPUNGE-class step show, among the messages it names and the mailbox still holds, exactly the authoritative
+    `\Deleted` ones? -/
+def expungeViewNote (st : MailboxRef.State) (i : Nat) : Step → Option String
+  | .expunge mb _ _ named us _ =>
+    let cur := ((st.mailbox? mb).map (·.entries)).getD []
+    let viewDel := us.filter fun u => cur.any (·.uid == u)
+    let auth := authDeleted st mb named
+    if viewDel == auth then none
+    else some s!"expunge-view=differs at-step={i} mailbox={mb} view-deleted={showNats viewDel} authoritative-deleted={showNats auth}"
+  | _ => none
 
 def judgeLoop : List Step → Nat → RefRun → Verdict → Verdict
   | [], _, _, v => v
@@ -192,6 +230,7 @@ def judgeLoop : List Step → Nat → RefRun → Verdict → Verdict
         judgeLoop rest (i + 1) r { v with checks := v.checks + 1, msgs := v.msgs + (r.st.mailboxes.map (·.2.entries.length)).sum }
       else { v with bad := some s!"cause=content {firstDiff want dump} step={i} checkpoint={v.checks + 1}" }
     | _ =>
+      let v := if v.note.isSome then v else { v with note := expungeViewNote r.st i st }
       let want := expectAns r.st st
       let got := stepAns st
       if got == "nofault" then judgeLoop rest (i + 1) r { v with steps := v.steps + 1, refused := v.refused + 1 }
@@ -256,7 +295,7 @@ def modelStep (r : ModelRun) : Step → Option (Answer × Act.State)
   | .append mb fl d a => some (Act.step env r.st (.append mb fl { bytes := d }) (secondOf a))
   | .bulk mb fl ds _ => some (bulkCreate r.st mb fl ds)
   | .store mb op fl us a => some (Act.step env r.st (.store mb (resolveM r mb us) (actionOf op) fl) (secondOf a))
-  | .expunge mb us a => some (Act.step env r.st (.expunge mb (resolveM r mb us)) (secondOf a))
+  | .expunge mb _ _ _ us a => some (Act.step env r.st (.expunge mb (resolveM r mb us)) (secondOf a))
   | .copy src dst us a => some (Act.step env r.st (.copy src dst (resolveM r src us)) (secondOf a))
   | .move src dst us a => some (Act.step env r.st (.move src dst (resolveM r src us)) (secondOf a))
   | _ => none
@@ -301,7 +340,9 @@ def judgeC03Content (args : List String) : String :=
   | mbs :: words =>
     let v := judgeLoop (words.map parseStep) 1 (initRef (splitList mbs)) {}
     match v.bad with
-    | some why => s!"violation {why}"
+    | some why => match v.note with
+      | some n => s!"violation {why} {n}"
+      | none => s!"violation {why}"
     | none =>
       if v.checks == 0 then "ok trivial no-checkpoint"
       else s!"ok nontrivial steps={v.steps} refused={v.refused} checkpoints={v.checks} messages-compared={v.msgs}"
